@@ -162,7 +162,8 @@ Inductive cerr :=
 | ERecursionLimitReached (n : N)
 | EBadImport (s : str)
 | EAmbigousImport (s : str)
-| ESuperLimitReached.
+| ESuperLimitReached
+| ETooManyUpvalues.
 
 Record compiled := {
   p_bytecode : list N;
@@ -569,7 +570,7 @@ Definition add_local (name : str) : M N := validate_var_name name ;; add_local_u
 
 Inductive variable := VGlobal | VLocal (i : N) | VUpvalue (i : N).
 
-(* add_upvalue on one function's list: index of an equal entry, or push (ArrayVec::push panics when full) *)
+(* add_upvalue on one function's list: index of an equal entry, or try_push (None = TooManyUpvalues) *)
 Definition add_upvalue (ups : list upvalue) (index : N) (is_local : bool) : option (N * list upvalue) :=
   match find_index (fun u => (u_index u =? index) && Bool.eqb (u_is_local u) is_local) ups 0 with
   | Some i => Some (N.of_nat i, ups)
@@ -585,7 +586,7 @@ Definition mark_captured (ls : list local) (i : nat) : list local :=
   end.
 
 (* resolve_upvalue(name, function_id) on the stacks [locs] = locals[function_id], locals[function_id-1], ...
-   and [ups] likewise.  None = ArrayVec::push panic. *)
+   and [ups] likewise.  None = Err(TooManyUpvalues). *)
 Fixpoint resolve_upvalue (name : str) (locs : list (list local)) (ups : list (list upvalue))
   : option (variable * list (list local) * list (list upvalue)) :=
   match locs, ups with
@@ -624,7 +625,7 @@ Definition resolve_var (name : str) : M variable :=
     | None =>
         match resolve_upvalue name (cs_locals s) (cs_upvalues s) with
         | Some (v, ls, us) => ROk v (set_scopes ls us (cs_depth s) s)
-        | None => RPanic
+        | None => error ETooManyUpvalues s        (* add_upvalue: try_push failed *)
         end
     end.
 
@@ -826,9 +827,7 @@ Fixpoint process_card (c : card) {struct c} : M unit :=
       encode_if_then IGotoIfFalse (process_card body ;; push_instr (IGoto block_begin)) ;;
       pop_sub
   | CRepeat i n body =>
-      push_sub 0 ;;
-      with_sub 0 (process_card n) ;;
-      pop_sub ;;
+      with_sub 0 (process_card n) ;;       (* the count is child 0 of the card *)
       scope_begin ;;
       do loop_n <- add_local_unchecked [] ;;
       do loop_counter <- add_local_unchecked [] ;;
